@@ -29,7 +29,9 @@ RULE = ("P1: all 4^n labellings (n=5; 6 thorough) of the cells into "
         "columns); runs share one interpreter (state leaks show up).  P2: "
         "all compositions of n into <= 3 files x rows_at_a_time 1..n x "
         "n_processors 1..3 for 8 labellings.  P3: deviations {csr, csc, "
-        "log2CPM input, copy_data_over}.  P4: all 6 coarsenings of a 3-level "
+        "log2CPM input, copy_data_over, same file name in several directories, "
+        "later files listing the genes in another order (refused or summed "
+        "by name)}.  P4: all 6 coarsenings of a 3-level "
         "tree + all two-step routes.  P5: merges of 2-3 files.  "
         "distinct_nontrivial = distinct (labelling, partition, flags) runs "
         "with >= 1 labelled cell")
@@ -160,7 +162,7 @@ def compare_file(path, exp, genes, label, tree_expect=None):
 
 
 def write_files(d, x, cell_ids, genes, comp, encoding, tag, obs_cols=None,
-                normalised=False, same_name=False):
+                normalised=False, same_name=False, gene_perm=False):
     paths = []
     a = 0
     data = own_log2cpm(x) if normalised else x
@@ -174,8 +176,14 @@ def write_files(d, x, cell_ids, genes, comp, encoding, tag, obs_cols=None,
         obs = pd.DataFrame(
             {k2: v[a:b_] for k2, v in (obs_cols or {}).items()},
             index=pd.Index(cell_ids[a:b_]))
+        these = list(genes)
+        if gene_perm and k > 0:
+            # later files list the same genes in another column order
+            order = [(j + k) % len(genes) for j in range(len(genes))]
+            these = [genes[j] for j in order]
+            xx = xx[:, order]
         ad = anndata.AnnData(X=xx, obs=obs,
-                             var=pd.DataFrame(index=pd.Index(genes)))
+                             var=pd.DataFrame(index=pd.Index(these)))
         if same_name:
             # per-dataset directories holding identically named files
             (d / f'ds_{tag}_{k}').mkdir(exist_ok=True)
@@ -218,15 +226,19 @@ def evaluate(case, scratch):
             violations.append({'key': key, 'msg': m})
 
     def run_tree(x, cell_ids, cluster_of, comp, rows, procs, encoding, tag,
-                 normalised=False, copy=False, same_name=False):
+                 normalised=False, copy=False, same_name=False,
+                 gene_perm=False):
         nonlocal n_runs
         paths = write_files(d, x, cell_ids, genes, comp, encoding, tag,
-                            normalised=normalised, same_name=same_name)
+                            normalised=normalised, same_name=same_name,
+                            gene_perm=gene_perm)
         tree = tree_for(cluster_of, cell_ids)
         out = d / f'stats_{tag}.h5'
         label = (f'labels={cluster_of} files={comp} rows_at_a_time={rows} '
                  f'n_processors={procs} {encoding} normalised={normalised} '
-                 f'copy_data_over={copy} same_basename={same_name}')
+                 f'copy_data_over={copy} same_basename={same_name}'
+                 + (' later files list the genes in another order'
+                    if gene_perm else ''))
         try:
             precompute_summary_stats_from_h5ad_list_and_tree(
                 data_path_list=[str(p) for p in paths],
@@ -236,6 +248,17 @@ def evaluate(case, scratch):
                 tmp_dir=tmp, n_processors=procs, copy_data_over=copy)
         except Exception as e:
             import traceback
+            if gene_perm:
+                # refusing files whose gene columns disagree is correct;
+                # nothing may be left at the output path
+                n_runs += 1
+                keys.append(label + ' -> refused')
+                if out.exists():
+                    viol('refused-but-wrote-output', [label])
+                    out.unlink()
+                for p in paths:
+                    p.unlink()
+                return None
             viol('precompute-raised',
                  [f'{label}: {type(e).__name__}: {e}\n'
                   f'{traceback.format_exc()[-800:]}'])
@@ -346,6 +369,16 @@ def evaluate(case, scratch):
                     out = run_tree(x, cell_ids, cluster_of, comp, 2, procs,
                                    'dense', f'p3s_{copy}_{procs}_{len(comp)}',
                                    copy=copy, same_name=True)
+                    if out is not None:
+                        out.unlink()
+        # the same genes in a different column order in later files: either
+        # refused, or summed by gene NAME
+        for enc in ('dense', 'csr'):
+            for procs in (1, 2):
+                for comp in ((2, n - 2), (1, 2, n - 3)):
+                    out = run_tree(x, cell_ids, cluster_of, comp, 2, procs,
+                                   enc, f'p3g_{enc}_{procs}_{len(comp)}',
+                                   gene_perm=True)
                     if out is not None:
                         out.unlink()
         sample = {'kind': 'P3 deviations'}
